@@ -34,7 +34,7 @@
 (*   Reset      = connStats.Reset                                          *)
 (*   KNew / KTo / KOtherFail / KAuthFail = connectingStats.go              *)
 (*  HANDLER level (SpecHandler): one action per step of handleNewTCPConn   *)
-(*   (HEnter, HGeoFail, HRead, HReadErr, HOutOfTransports, HVerdict,       *)
+(*   (HEnter, HGeoFail, HRead, HReadErr, HVerdict (+ the loop's tail),     *)
 (*   HDrainEnd, HSleepDone, HRelayEnd); each step lists the counter calls  *)
 (*   the code makes there, in order.  LegalSeq is the language of call     *)
 (*   sequences of one connection, per outcome.                             *)
@@ -54,7 +54,7 @@ CONSTANTS Conns,      \* connection ids (strings)
           Asns,       \* ASN keys (strings; the driver maps them to numbers)
           CCs,        \* country codes; "" = none known: such a connection is not tabulated per ASN
           Variant,    \* "as_found" | "intended"
-          Broken,     \* "none" | "terminal_keeps_gauge" | "reset_clears_gauges" | "double_new"
+          Broken,     \* "none" | "terminal_keeps_gauge" | "reset_clears_gauges" | "double_new" | "found_no_close"
           MaxLoops,   \* bound on check -> read / check -> created returns per connection
           MaxPrints,  \* bound on PrintAndReset + Reset calls
           MaxAuth     \* bound on AddAuthFailConnecting calls
@@ -355,23 +355,20 @@ HReadErr(c, kind) ==
   /\ LET calls == <<ReadErrCall(hs[c].got, kind), "S.ConnErr">> IN
      /\ HSame(c, calls, [hs[c] EXCEPT !.ph = "done", !.why = kind])
      /\ obs' = [a |-> "ReadErr", c |-> c, kind |-> kind, calls |-> calls]
-\* top of the read loop with no transport left
-HOutOfTransports(c) ==
-  /\ hs[c].ph = "read" /\ hs[c].alive = {}
-  /\ HSame(c, <<"S.ConnErr">>, [hs[c] EXCEPT !.ph = "drain"])
-  /\ obs' = [a |-> "OutOfTransports", c |-> c, calls |-> <<"S.ConnErr">>]
 \* one WrapConnection answer; after the last transport of the round the loop's tail runs in the same step
-LoopTail(alive, got) == IF alive = {} THEN "CheckToDiscard" ELSE IF got = 0 THEN "CheckToCreated" ELSE "CheckToRead"
+\* (no transport left: checkToDiscard, then the top of the loop files the connection as an error and starts draining)
+LoopTail(alive, got) == IF alive = {} THEN <<"CheckToDiscard", "S.ConnErr">> ELSE IF got = 0 THEN <<"CheckToCreated">> ELSE <<"CheckToRead">>
 HVerdict(c, t, r) ==
   /\ hs[c].ph = "offer" /\ t \in hs[c].todo
   /\ LET alive2 == IF r = "not" THEN hs[c].alive \ {t} ELSE hs[c].alive
          todo2 == hs[c].todo \ {t}
          calls == CASE r = "match" -> <<"CheckToFound">>
                     [] r = "error" -> <<"S.ConnErr", "CheckToError">>
-                    [] OTHER -> IF todo2 = {} THEN <<LoopTail(alive2, hs[c].got)>> ELSE <<>>
+                    [] OTHER -> IF todo2 = {} THEN LoopTail(alive2, hs[c].got) ELSE <<>>
          h2 == CASE r = "match" -> [hs[c] EXCEPT !.ph = "found", !.todo = {}]
                  [] r = "error" -> [hs[c] EXCEPT !.ph = "sleep", !.todo = {}]
-                 [] OTHER -> [hs[c] EXCEPT !.alive = alive2, !.todo = todo2, !.ph = IF todo2 = {} THEN "read" ELSE "offer"] IN
+                 [] OTHER -> [hs[c] EXCEPT !.alive = alive2, !.todo = todo2,
+                                          !.ph = IF todo2 # {} THEN "offer" ELSE IF alive2 = {} THEN "drain" ELSE "read"] IN
      /\ r \in {"again", "not", "match", "error"}
      /\ HSame(c, calls, h2)
      /\ obs' = [a |-> "Verdict", c |-> c, t |-> t, r |-> r, calls |-> calls]
@@ -389,12 +386,13 @@ HSleepDone(c) ==
 \* cj.Proxy returned
 HRelayEnd(c) ==
   /\ hs[c].ph = "found"
-  /\ HSame(c, <<"S.CloseConn">>, [hs[c] EXCEPT !.ph = "done", !.why = "match"])
-  /\ obs' = [a |-> "RelayEnd", c |-> c, calls |-> <<"S.CloseConn">>]
+  /\ LET calls == IF Broken = "found_no_close" THEN <<>> ELSE <<"S.CloseConn">> IN
+     /\ HSame(c, calls, [hs[c] EXCEPT !.ph = "done", !.why = "match"])
+     /\ obs' = [a |-> "RelayEnd", c |-> c, calls |-> calls]
 
 NextHandler ==
   \/ \E c \in Conns, f \in Fams, a \in Asns, cc \in CCs, occ \in {0, 1} : HEnter(c, f, a, cc, occ)
-  \/ \E c \in Conns : HGeoFail(c) \/ HOutOfTransports(c) \/ HSleepDone(c) \/ HRelayEnd(c)
+  \/ \E c \in Conns : HGeoFail(c) \/ HSleepDone(c) \/ HRelayEnd(c)
   \/ \E c \in Conns, n \in {0, 1} : hs[c].out # <<>> /\ Len(hs[c].out) < 2 + 4 * (MaxLoops + 1) /\ HRead(c, n)
   \/ \E c \in Conns, k \in ErrKinds : HReadErr(c, k) \/ HDrainEnd(c, k)
   \/ \E c \in Conns, t \in Transports, r \in {"again", "not", "match", "error"} : HVerdict(c, t, r)
@@ -472,7 +470,7 @@ QuiescentZero == (Quiet /\ AllDone) => \A f \in Fams, s \in Gauges : glob[f][s] 
 NoBadCall == \A c \in Conns : conn[c].st # "BAD"
 PhaseMatches == \A c \in Conns :
   CASE hs[c].ph = "idle"  -> conn[c].st = "idle"
-    [] hs[c].ph = "read"  -> conn[c].st = (IF hs[c].alive = {} THEN "discarding" ELSE IF hs[c].got = 0 THEN "created" ELSE "reading")
+    [] hs[c].ph = "read"  -> hs[c].alive # {} /\ conn[c].st = (IF hs[c].got = 0 THEN "created" ELSE "reading")
     [] hs[c].ph = "offer" -> conn[c].st = "checking"
     [] hs[c].ph = "drain" -> conn[c].st = "discarding"
     [] hs[c].ph = "found" -> conn[c].st = "found"
@@ -481,7 +479,7 @@ PhaseMatches == \A c \in Conns :
     [] OTHER -> FALSE
 LegalWhenDone == \A c \in Conns : hs[c].ph = "done" => LegalSeq(hs[c].out, hs[c].why)
 \* the singleton's gauge = connections being classified or relayed (released BEFORE the drain / the penalty sleep)
-StatActiveExact == stat.active = Cardinality({c \in Conns : hs[c].ph \in {"offer", "found"} \/ (hs[c].ph = "read" /\ hs[c].alive # {})})
+StatActiveExact == stat.active = Cardinality({c \in Conns : hs[c].ph \in {"read", "offer", "found"}})
 StatBalanced == (\A c \in Conns : hs[c].ph \in {"idle", "done"}) => stat.active = 0
 \* a finished, counted connection was new once and resolved once
 OncePerConn == \A c \in Conns : (hs[c].ph = "done" /\ hs[c].why # "uncounted") =>
